@@ -1492,12 +1492,12 @@ func (p *prover) leEdge(a ssa.Value, aLen bool, ca int64, b ssa.Value, bLen bool
 		if ph, ok := stripTermValue(a).(*ssa.Phi); ok && a != nil {
 			return p.perEdge(ph, func(e ssa.Value, last ssa.Instruction) bool {
 				return p.leEdge(e, aLen, ca+offsetOf(a), b, bLen, cb, last, ph.Block())
-			}, q)
+			}, q, loopInvariant(b, ph))
 		}
 		if ph, ok := stripTermValue(b).(*ssa.Phi); ok && b != nil {
 			return p.perEdge(ph, func(e ssa.Value, last ssa.Instruction) bool {
 				return p.leEdge(a, aLen, ca, e, bLen, cb+offsetOf(b), last, ph.Block())
-			}, q)
+			}, q, loopInvariant(a, ph))
 		}
 	}
 	// parameter facts from callers
@@ -1544,9 +1544,37 @@ func offsetOf(v ssa.Value) int64 {
 	return off
 }
 
-func (p *prover) perEdge(ph *ssa.Phi, prove func(e ssa.Value, last ssa.Instruction) bool, q ssa.Instruction) bool {
-	// only sound when the phi's block dominates q and no back edge redefines it in between: the phi
-	// value is fixed for the iteration in which q executes, so proving each incoming edge suffices.
+// loopInvariant: the other side of a relation with phi ph is a constant or an SSA value defined
+// before ph's block is first entered (so it has one value for all iterations) - not a load from
+// memory, whose identity is an access path that the loop may overwrite.
+func loopInvariant(other ssa.Value, ph *ssa.Phi) bool {
+	if other == nil {
+		return true
+	}
+	v := stripTermValue(other)
+	switch x := v.(type) {
+	case *ssa.Const, *ssa.Parameter:
+		return true
+	case *ssa.UnOp:
+		return false
+	case ssa.Instruction:
+		if call, ok := v.(*ssa.Call); ok {
+			if callName(&call.Call) != "builtin.len" {
+				return false
+			}
+			return loopInvariant(call.Call.Args[0], ph)
+		}
+		b := x.Block()
+		return b != nil && b != ph.Block() && b.Dominates(ph.Block())
+	}
+	return false
+}
+
+func (p *prover) perEdge(ph *ssa.Phi, prove func(e ssa.Value, last ssa.Instruction) bool, q ssa.Instruction, otherInvariant bool) bool {
+	// only sound when the phi's block dominates q: the phi value is fixed for the iteration in
+	// which q executes, so proving each incoming edge suffices. A back edge is a step of an
+	// induction over the visits of the loop header: it may be proved like any other edge as long as
+	// the other side of the relation does not change in the loop.
 	if !ph.Block().Dominates(q.Block()) {
 		return false
 	}
@@ -1554,9 +1582,8 @@ func (p *prover) perEdge(ph *ssa.Phi, prove func(e ssa.Value, last ssa.Instructi
 	defer func() { p.depth-- }()
 	for i, e := range ph.Edges {
 		pred := ph.Block().Preds[i]
-		if ph.Block().Dominates(pred) {
-			// back edge: the value comes from a previous iteration; accept only self-references
-			// guarded elsewhere — refuse
+		if ph.Block().Dominates(pred) && !otherInvariant {
+			// back edge: the value comes from a previous iteration
 			return false
 		}
 		last := pred.Instrs[len(pred.Instrs)-1]
